@@ -470,6 +470,69 @@ def run(rep):
     except Exception as e:  # Anchor etc.
         rep.error("P6 could not evaluate values_len: %s" % e)
 
+    # ---------------- P7 fallible images behind the Optional wrapper
+    rep.rule(
+        "P7",
+        "range propagation is total: in the implementation tables of expr/implementation.rs (thread-local table and the default arm of `function`) every constructor `data_type::function::<f>()` "
+        "whose result is registered WITHOUT `Optional::new(..)` is in the reviewed list, or the `super_image` of its concrete type cannot answer Err (no `Err(..)`, `?` or unwrap in the impl)",
+        floor=8,
+        necessary="Map::schema_exprs / Reduce::schema_aggregate unwrap `super_image`: an implementation that can refuse a set (nullable argument, value outside the domain) and is not wrapped turns "
+        "`SELECT md5(nullable_col)` into a panic while the relation is built",
+    )
+    REVIEWED_UNWRAPPED = {
+        "cast": "only CastAsText: every type converts to text (the other casts are wrapped)",
+        "coalesce": "Coalesce computes the union of its arguments' types: total",
+        "concat": "Pointwise over text(any): arguments are converted to text",
+        "random": "nullary", "pi": "nullary", "newid": "nullary", "current_date": "nullary", "current_time": "nullary", "current_timestamp": "nullary",
+    }
+    from .core import Src as _Src7, find as _find7, show as _show7
+    from . import facts as _facts7
+
+    src7 = _Src7(_facts7.src_facts())
+    seen_un = {}
+    for name in ("expr::implementation::FUNCTION_IMPLEMENTATIONS::__rust_std_internal_init_fn", "expr::implementation::function"):
+        b = mir.by_path.get(name)
+        if b is None:
+            rep.error("P7: anchor lost: %s" % name)
+            continue
+        ctor = {}
+        for bl in b["blocks"]:
+            t = bl["t"]
+            if t[0] == "call" and isinstance(t[1], int) and t[3][1] == "":
+                pth = mir.callees[t[1]]["path"]
+                if pth.startswith("data_type::function::") and pth.count("::") == 2:
+                    ctor[t[3][0]] = (pth.rsplit("::", 1)[-1], mir.types[b["locals"][t[3][0]]])
+        for bl in b["blocks"]:
+            t = bl["t"]
+            if t[0] == "call" and isinstance(t[1], int) and t[2] and t[2][0][0] in ("m", "c") and t[2][0][1][0] in ctor:
+                pth = mir.callees[t[1]]["path"]
+                c, ty = ctor[t[2][0][1][0]]
+                if "Optional" in pth:
+                    seen_un.setdefault((c, ty), []).append("wrapped")
+                elif "Arc" in pth:
+                    seen_un.setdefault((c, ty), []).append("bare")
+    n_bare = 0
+    for (c, ty), how in sorted(seen_un.items()):
+        nb = how.count("bare")
+        if not nb:
+            continue
+        n_bare += 1
+        key = "implementation|%s" % c
+        total = None
+        tname = ty.rsplit("::", 1)[-1].split("<")[0]
+        impls = [f for f in src7.find_fns(name="super_image", file="data_type/function.rs") if (f.self_ty or "").split("<")[0] == tname and (f.trait or "").startswith("Function")]
+        if len(impls) == 1:
+            body = impls[0].body
+            total = not list(_find7(body, "try")) and not any((x["k"] == "call" and (_show7(x["f"], 0) == "Err")) for x in _find7(body, "call")) and not any(x["m"] in ("unwrap", "expect") for x in _find7(body, "mcall"))
+        rep.instance("P7", key, {"constructor": c, "type": ty, "registered_bare": nb, "wrapped": how.count("wrapped"), "reviewed": REVIEWED_UNWRAPPED.get(c), "super_image_total": total})
+        if c in REVIEWED_UNWRAPPED and nb <= 1:
+            continue
+        if total is True:
+            continue
+        rep.violation("P7", key, "data_type::function::%s() (%s) is registered without the Optional wrapper%s and its super_image can answer Err: the unwrap in Map::schema_exprs panics" % (c, tname, " %d times" % nb if nb > 1 else ""), "src/expr/implementation.rs")
+    if n_bare < 5:
+        rep.error("P7: only %d bare registrations found (table not read?)" % n_bare)
+
     # ---------------- E1 / E2 dispatch exhaustiveness
     rep.rule(
         "E1",
